@@ -88,6 +88,8 @@ def run(prog, rep, tier):
     check_insert_any_changed(prog, r6)
     r7 = rep.rule("R06.7", "a change with any_changed set is emitted whether or not the best path changed")
     check_emission_guard(prog, r7)
+    r8 = rep.rule("R06.8", "a purge reports a change for a prefix exactly when it removes a path that selection could see (removed by its retain, not filtered, next hop valid)")
+    check_purge_visibility(prog, r8)
 
 
 # ---------------------------------------------------------------------------------------------- R06.5
@@ -604,3 +606,69 @@ def check_emission_guard(prog, r):
         else:
             r.ok("%s: a change is emitted when best_changed or any_changed holds" % short(root_name(prog, fv.key)))
     r.floor("NlriChange constructions with a computed any_changed", n, 4)
+
+
+def check_purge_visibility(prog, r):
+    """drop_stale / drop_llgr_stale / drop_no_llgr / ..: per destination the purge first asks `does any path I am about to remove
+    count for selection?` (an `any` over the path list) and stays silent when the answer is no.  That question must use the
+    predicate the removal itself uses: an entry the retain drops but the question overlooks disappears without a change event."""
+    from .. import predicates
+    from .c15 import _entry_atom, _table_of, _closure_key
+    import itertools
+    n = 0
+    for k in crate_fns(prog, "rustybgp_table"):
+        ix = prog.ix[k]
+        if ix["kind"] not in ("fn", "method") or not ix["name"].startswith("rustybgp_table::Table::"):
+            continue
+        retains, anys = [], []
+        for b in prog.with_closures(k):
+            fv = view(prog, b)
+            rend = Renderer(fv, depth=6)
+            for bi, t in fv.calls(re.compile(r".*(Vec::<T, A>::retain|Iterator::any)$")):
+                if "RibEntry" not in t["f"].get("ga", ""):
+                    continue
+                cl = [x[2] for a in t["args"][1:] for x in walk(rend.operand(a, 6)) if isinstance(x, tuple) and x and x[0] == "agg" and str(x[1]).startswith("closure")]
+                ck = _closure_key(prog, cl[0]) if len(cl) == 1 else None
+                if ck is None:
+                    continue
+                if t["f"]["name"].endswith("retain"):
+                    retains.append(ck)
+                elif any(prog.name(c).endswith("RibEntry::is_filtered") for c in prog.callees(ck) if c in prog.ix) or \
+                        any(prog.name(c).endswith("RibEntry::is_filtered") for kk in prog.with_closures(ck) for c in prog.callees(kk) if c in prog.ix):
+                    anys.append(ck)
+        if len(retains) != 1 or not anys:
+            continue
+        where = short(ix["name"])
+        r.analysed(ix["name"])
+        rr, rfv = predicates.rows(prog, retains[0], _entry_atom)
+        for ak in anys:
+            ar, afv = predicates.rows(prog, ak, _entry_atom)
+            if rr is None or ar is None or any(us or res is None for rws in (rr, ar) for f_, res, us in rws):
+                r.unanalysable("%s: a condition over the entry is not a flag of the entry" % where, afv.loc())
+                continue
+            n += 1
+            uni = sorted({a for rws in (rr, ar) for f_, res, us in rws for a in f_} | {"is_filtered", "is_nexthop_invalid"})
+            tr, ta = _table_of(rr, uni), _table_of(ar, uni)
+            bad = None
+            for vals in itertools.product([False, True], repeat=len(uni)):
+                v = dict(zip(uni, vals))
+                if tr[vals] is None or ta[vals] is None:
+                    bad = ("undecided", v)
+                    break
+                want = (not tr[vals]) and not v["is_filtered"] and not v["is_nexthop_invalid"]
+                if ta[vals] != want:
+                    bad = ("mismatch", v, ta[vals])
+                    break
+            if bad is None:
+                r.ok("%s: `removes a visible path?` = dropped by retain, not filtered, next hop valid (atoms %s)" % (where, ",".join(uni)))
+            elif bad[0] == "undecided":
+                r.unanalysable("%s: predicates not total over %s" % (where, uni), afv.loc())
+            else:
+                v = bad[1]
+                r.fail(ix["name"], "purge-visibility-predicate", "an entry with %s is %s by the purge's retain, yet the test that decides whether a change is reported answers %s for it: "
+                       "%s" % (", ".join("%s=%s" % (a, v[a]) for a in uni), "kept" if tr[tuple(v[a] for a in uni)] else "removed", bad[2],
+                               "a visible path is removed without a change event" if not bad[2] else "a change is reported although nothing visible was removed"), afv.loc())
+    if n == 0:
+        r.note("no purge asks its visibility question with `any` over the path list (a loop with a flag is read by R06.2/R06.7 only)")
+    else:
+        r.note("purges with a visibility test over the path list: %d" % n)
